@@ -421,11 +421,11 @@ def _model_gap(e):
     # e.g. NPShim.cumsum() got an unexpected keyword argument: raised at the call site in the repo, about a model function
     msg = str(e)
     import re
-    if isinstance(e, TypeError) and re.search(r"\b(A|SymLen|GuardedSeq|\w*Shim|Fake\w+|LIndex|KernelObj)\.\w+\(\) (got an unexpected keyword|takes|missing)", msg):
+    if isinstance(e, TypeError) and re.search(r"\b(A|SymLen|GuardedSeq|\w*Shim|Fake\w+|LIndex|ModelIndex|TypedDictModel|KernelObj)\.\w+\(\) (got an unexpected keyword|takes|missing)", msg):
         return f"{type(e).__name__}: {msg[:160]}"
     if isinstance(e, AttributeError) and re.search(r"'(function|method|builtin_function_or_method)' object has no attribute", msg):
         return f"{type(e).__name__}: {msg[:160]}"          # an attribute of a model FUNCTION (np.add.reduceat on the fallback wrapper)
-    if isinstance(e, AttributeError) and re.search(r"'(A|SymLen|GuardedSeq|\w*Shim|Fake\w+|LIndex|_ILoc|_Loc|Stub)' object has no attribute", msg):
+    if isinstance(e, AttributeError) and re.search(r"'(A|SymLen|GuardedSeq|\w*Shim|Fake\w+|LIndex|ModelIndex|TypedDictModel|_ILoc|_Loc|Stub)' object has no attribute", msg):
         return f"{type(e).__name__}: {msg[:160]}"
     return None
 
